@@ -7,6 +7,7 @@ import (
 	"crypto/sha1"
 	"fmt"
 	"io"
+	"seehuhn.de/go/postscript/funit"
 	"seehuhn.de/go/sfnt/glyf"
 	"sort"
 	"strings"
@@ -306,6 +307,15 @@ func Font(k int) *sfnt.Font {
 		}
 	}
 	if k == 1 {
+		// no built-in encoding given (the writer falls back to the standard encoding; that is not stored
+		// in the shared font)
+		if o, ok := f.Outlines.(*cff.Outlines); ok {
+			o2 := *o
+			o2.Encoding = nil
+			f.Outlines = &o2
+		}
+	}
+	if k == 1 {
 		// no cap height / x-height given although 'H' and 'x' are mapped (the writer derives the OS/2 values
 		// from the glyphs; that must not be stored in the shared font)
 		f.CapHeight, f.XHeight = 0, 0
@@ -322,6 +332,10 @@ func Font(k int) *sfnt.Font {
 			panic("c16ops: the glyf font has no glyph names")
 		}
 		o.Names[len(o.Names)-1] = "uni0066_uni0069." + strings.Repeat("long_", 17)
+		// a blank glyph that is stored as a record of its own (no contour, no instruction, but a bounding
+		// box in its header)
+		o.Glyphs = append(glyf.Glyphs{}, o.Glyphs...)
+		o.Glyphs[len(o.Glyphs)-1] = &glyf.Glyph{Rect16: funit.Rect16{LLx: 5, LLy: 5, URx: 20, URy: 30}, Data: glyf.SimpleGlyph{NumContours: 0, Encoded: []byte{0, 0}}}
 		// raw tables the font carries along (the writers add them to what they generate)
 		o.Tables = map[string][]byte{"cvt ": {0, 1, 0, 2, 0, 3}, "gasp": {0, 1, 0, 1, 0xFF, 0xFF, 0, 3}}
 	}
